@@ -971,6 +971,13 @@ def oracle_optimize(run: Runner) -> list[dict[str, Any]]:
             for j in range(n_cbs):
                 if t["number"] != last and cnt.get((t["number"], j), 0) != 1:
                     fails.append({"sig": sig("callback-missing", "count"), "msg": "callback %d ran %d times for trial %d" % (j, cnt.get((t["number"], j), 0), t["number"])})
+        # the last started trial: when optimize returned normally nothing propagated, so every callback ran once for it
+        # too - whatever ended the loop (n_trials, stop(), the timeout passing while the trial ran)
+        if run.exc is None:
+            for j in range(n_cbs):
+                if cnt.get((last, j), 0) != 1:
+                    fails.append({"sig": sig("callback-missing", "count"), "msg": "optimize returned normally (timeout=%r, n_trials=%r) but callback %d ran %d times for the last trial %d" % (
+                        case["timeout"], case["n_trials"], j, cnt.get((last, j), 0), last)})
     # exactly n trials when nothing stops the loop
     quiet = (run.exc is None and case["timeout"] is None and case["n_trials"] is not None
              and not any(ob.stop for ob in run.obs) and not any(c.get("stop") for p in run.plans for c in p["cbs"]))
